@@ -12,6 +12,9 @@ pub mod c09;
 pub mod c10;
 pub mod c19;
 pub mod c20;
+pub mod c24;
+pub mod c25;
+pub mod c26;
 
 use crate::report::{Cfg, Report};
 
@@ -28,6 +31,9 @@ pub fn dispatch(prop: &str, cfg: &Cfg) -> Option<Report> {
         "C10" => c10::run(cfg),
         "C19" => c19::run(cfg),
         "C20" => c20::run(cfg),
+        "C24" => c24::run(cfg),
+        "C25" => c25::run(cfg),
+        "C26" => c26::run(cfg),
         _ => return None,
     })
 }
